@@ -260,3 +260,25 @@ def validate(patterns: list[tuple[str, int]], samples: list[str], mode: str = "m
 
 
 NOMARK = z3.Star(_neg(z3.Empty(_RS)))
+
+
+def well_placed_marks():
+    """Strings in which every \\b marker really stands at a word boundary: between a word character and a non-word
+    character (or the start / end of the string), never between two word characters, two non-word characters, or next to
+    another marker.  Constraining a query string to this language removes models in which a marker 'creates' a boundary."""
+    W = _category(K.CATEGORY_WORD, False)
+    N = _neg(W)  # non-word, never the marker itself
+    M = z3.Re(MARK)
+    bad_mid = z3.Union(z3.Concat(W, M, W), z3.Concat(N, M, N), z3.Concat(M, M))
+    bad = z3.Union(
+        z3.Concat(ANYSTAR, bad_mid, ANYSTAR),
+        z3.Concat(M, N, ANYSTAR),  # a marker at the start must be followed by a word character
+        z3.Concat(ANYSTAR, N, M),  # ... at the end preceded by one
+        M,
+    )
+    return z3.Complement(bad)
+
+
+def _in_word():
+    """word characters plus '-' and ':' (characters that continue an HTML tag / attribute name)"""
+    return z3.Union(_category(K.CATEGORY_WORD, False), z3.Re("-"), z3.Re(":"))
